@@ -71,7 +71,8 @@ func (c taintCase) graph() (*gen.GraphBP, map[int]string) {
 		p.Names = append(p.Names, gen.Str(b.tok("given")+" /"+b.tok("surname")+"/ "+b.tok("suffix")))
 		nameless := ex(7) && i%4 == 1 // somebody without any NAME: pages fall back to other values (the pointer)
 		if nameless {
-			p.Names = nil
+			// (no NAME line at all, a NAME line without a value, or one with empty slashes)
+			p.Names = [][]gen.Str{nil, {""}, {"//"}}[(i/4+c.Mask+c.Extras)%3]
 		}
 		if ex(0) && !nameless {
 			p.Names = append(p.Names, gen.Str(b.tok("given2")+" /"+b.tok("surname2")+"/"))
